@@ -86,4 +86,31 @@ theorem leg_opreg_formOk (ctx : Spec.X86.Ctx) (rule : Rule) (p : Parsed) (bytes 
   simp [hop, hreg, hs, hpp8, ha67, allOk]
   exact ⟨hw, by simpa using c66, by simpa using cF3, by simpa using cF2, cF0, c9B, by omega, by simpa using ccont⟩
 
+/-- legacy shape [rm, imm] with an opcode-extension digit (`/d ib|iw|id`), arbitrary register kind, ANY immediate width / signedness: the
+immediate's own conditions of the monitor are a hypothesis (`hic`) -/
+theorem leg_rm_imm_formOkG (ctx : Spec.X86.Ctx) (rule : Rule) (p : Parsed) (mb : BitVec 8) (bytes : List (BitVec 8)) (pp d nimm : Nat)
+    (ka : RegKind) (fa f3 : FormOp) (ia : Nat) (v : BitVec 64)
+    (hmode : ((if ctx.mode64 then rule.modes &&& 2 else rule.modes &&& 1) != 0) = true)
+    (R : LegRuleD rule nimm pp d) (hd : d < 8) (hdig : bits mb 3 3 = d)
+    (hra : fa.role = .rm)
+    (hic : allOk (opConds ctx rule p 0 f3 (.imm v)).1 = true)
+    (hreg : regOkB ka ia (regNum false p.B (bits mb 0 3)) p = true)
+    (hal : alignOps rule.oszEff rule.ops [.reg ka ia, .imm v] = some [(fa, some (.reg ka ia)), (f3, some (.imm v))])
+    (hparse : parse ctx.mode64 rule bytes = .ok p) (P : LegParsed rule p mb pp) :
+    formOk ctx rule [.reg ka ia, .imm v] {} bytes = true := by
+  obtain ⟨hvk, hpfx, hmodrm, hmod, hop, hw, hR'⟩ := P
+  obtain ⟨hmodes, hs, hpp8, h66, hF3, hF2, hpplt, hri, hmk, hmr, hmrm, himm, hrel, hmoff, ha67, hrev⟩ := R
+  obtain ⟨c66, cF3, cF2, cF0, c9B, c67, cseg, ccont⟩ := count_ppBytes pp hpplt
+  have hleg : isLegacySpace rule = true := by simp [isLegacySpace, hs]
+  have h2 : (opConds ctx rule p 0 fa (.reg ka ia)).2 = 0 := by simp [opConds, hra, hmodrm]
+  simp only [formOk, conds, hal, hparse, hmode]
+  simp only [operandConds, h2]
+  generalize opConds ctx rule p 0 f3 (.imm v) = X at hic ⊢
+  simp only [allOk_cons, allOk_append, decorConds, headConds, prefixConds, modrmConds, opConds, tailConds, hra,
+    allOk_regConds, allOk_nil, memOperandOf, implMemOf, usesVvvv, memDestOf, hic,
+    hasBcst, hleg, hri, hmodrm, hpfx, hvk, c66, cF3, cF2, cF0, c9B, c67, cseg, ccont, h66, hF3, hF2, hR']
+  simp [hop, hreg, hmod, hmr, hmrm, hs, hpp8, ha67, allOk, hdig]
+  exact ⟨⟨hw, by simpa using c66, by simpa using cF3, by simpa using cF2, cF0, c9B, by omega, by simpa using ccont⟩,
+    by rcases hmk with h | h <;> omega⟩
+
 end AsmjitVerif.Lemmas.X86Parse
